@@ -61,6 +61,8 @@ def _leaf_expr(r, k):
         r.used.add('f')
         return 'f()'
     if k == 'ycall':
+        if r.lpick(0, 1, 2, 3) == 0:
+            return '@is_you()'          # the entry point is a you-function like any other (the placement rules are syntactic)
         r.used.add('g')
         return '@g()'
     if k == 'dcall':
